@@ -281,6 +281,9 @@ func ToAllocation(protoAlloc *Allocation) (alloc *channel.Allocation, err error)
 	if err != nil {
 		return nil, errors.WithMessage(err, "backends")
 	}
+	if len(protoAlloc.GetAssets()) != len(alloc.Backends) {
+		return nil, errors.Errorf("%d assets but %d backends", len(protoAlloc.GetAssets()), len(alloc.Backends))
+	}
 	alloc.Assets = make([]channel.Asset, len(protoAlloc.GetAssets()))
 	for i := range protoAlloc.GetAssets() {
 		alloc.Assets[i] = channel.NewAsset(alloc.Backends[i])
